@@ -12,7 +12,7 @@ from ..core import Result
 ID = "C12"
 LEVEL = "fault_enumeration"
 TIMEOUT = {"quick": 900, "thorough": 5400}
-PRIORS = ["none", "good", "good+bak", "good+tmp", "good+bak+tmp"]
+PRIORS = ["none", "good", "good+bak", "good+tmp", "good+bak+tmp", "good+longtmp"]
 ERRNOS = [errno.EIO, errno.ENOSPC, errno.EACCES]
 VERSION = "2.2"
 
@@ -89,7 +89,9 @@ def setup_prior(d, ext, prior, dataA, dataOld):
         snap[main] = dataA
     if "bak" in prior:
         snap[bak] = dataOld
-    if "tmp" in prior:
+    if "longtmp" in prior:
+        snap[tmp] = dataOld + dataA + dataOld       # leftover of an interrupted save of a much bigger state
+    elif "tmp" in prior:
         snap[tmp] = dataOld[: len(dataOld) // 2]
     materialise(d, snap)
     return snap
@@ -424,7 +426,7 @@ def finish(agg, tier):
     else:
         floors.append(("strace_kills", c.get("strace_kills", 0), 20))
     return {
-        "rule": "prior configurations {no file, good, good+stale .bak, good+stale .tmp, good+both} x {json, pickle} x tree size; "
+        "rule": "prior configurations {no file, good, good+stale .bak, good+stale .tmp (shorter / longer than the new file), good+both} x {json, pickle} x tree size; "
                 "a dry run records the file-operation sequence of the save (open, each write, flush, fsync, close, renames, remove); "
                 "every operation is used (a) as crash point: forked child ends with os._exit before the op (nothing flushed), judged "
                 "as-on-disk and with unsynced data lost (files whose last write was not followed by fsync truncated to 0 / a random "
